@@ -245,7 +245,7 @@ func (idx *RoaringMetadataIndex) getExistenceBitmap(field string) *roaring.Bitma
 	result := roaring.New()
 	prefix := field + ":"
 	for key, bitmap := range idx.categorical {
-		if len(key) > len(prefix) && key[:len(prefix)] == prefix {
+		if len(key) >= len(prefix) && key[:len(prefix)] == prefix {
 			result.Or(bitmap)
 		}
 	}
